@@ -74,6 +74,28 @@ pub fn run<C: Suite>(ctx: &mut Ctx) {
                 return ctx.viol("honest-run-failed", "harvest", json!({"err": e}));
             }
             each_wire_type!(co, roundtrip, ctx);
+            // the list form of a commitment (one byte string per coefficient)
+            for c in &co.vss_commitment {
+                match c.serialize() {
+                    Ok(list) => match frost_core::keys::VerifiableSecretSharingCommitment::<C>::deserialize(list.iter()) {
+                        Ok(c2) => {
+                            if &c2 != c || c2.serialize().ok().as_ref() != Some(&list) {
+                                ctx.viol("roundtrip", "binary/VerifiableSecretSharingCommitment-list-form", json!({"list": list.iter().map(hex::encode).collect::<Vec<_>>()}));
+                            }
+                        }
+                        Err(e) => ctx.viol("roundtrip", "binary-decode/VerifiableSecretSharingCommitment-list-form", json!({"err": format!("{e:?}")})),
+                    },
+                    Err(e) => ctx.viol("roundtrip", "binary-encode/VerifiableSecretSharingCommitment-list-form", json!({"err": format!("{e:?}")})),
+                }
+                // a whole-form string whose length is not a multiple of the element size is refused
+                if let Ok(mut w) = c.serialize_whole() {
+                    w.push(2);
+                    if frost_core::keys::VerifiableSecretSharingCommitment::<C>::deserialize_whole(&w).is_ok() {
+                        ctx.viol("wrong-length-accepted", "VerifiableSecretSharingCommitment-whole-form", json!({"len": w.len()}));
+                    }
+                }
+                ctx.count("binary_roundtrips");
+            }
         });
     }
     // primitive decoders: sweeps; one item per (type) so that shards share the load
